@@ -468,3 +468,12 @@ def div_cat(q: Int, r: Int, p: Int):
 def mod_cat(q: Int, r: Int, p: Int):
     requires(p > 0 and 0 <= r and r < p)
     ensures((q * p + r) % p == r)
+
+
+@lemma
+def blen_mono(x: Int, y: Int):
+    requires(0 <= x and x <= y)
+    ensures(blen(x) <= blen(y))
+    decreases(y)
+    if x > 0:
+        blen_mono(x // 2, y // 2)
